@@ -109,6 +109,30 @@ def run(prop, tier, seed, replay):
             ck.add_violation(f"separation of two points given as {dt} ({sep[i]!r}) differs from the separation of the same "
                              f"points given as float64 ({ref64[i]!r})", {"dtype": dt, "p": arr[i].tolist(),
                                                                          "q": np.roll(arr, 1, axis=0)[i].tolist()})
+    # small point sets of every size: the conversion treats each point on its own, whatever the number of points
+    for npts in (1, 2, 3, 4, 5):
+        for rep_i in range(3):
+            r0 = nprng.uniform(0.1, 2 * np.pi - 0.1, npts)
+            d0 = nprng.uniform(-1.2, 1.2, npts)
+            small = AngularCoordinates(np.column_stack([r0, d0]))
+            rt = attempt(lambda: AngularCoordinates.from_3d(small.to_3d()), f"from_3d(to_3d) of {npts} point(s)", {"n": npts})
+            ck.case(None, ("small-set", npts, rep_i))
+            ck.count(f"set-size={npts}")
+            if rt is None:
+                continue
+            if len(rt) != npts or np.max(np.abs(rt.ra - r0)) > 1e-9 or np.max(np.abs(rt.dec - d0)) > 1e-9:
+                ck.add_violation(f"from_3d(to_3d(c)) is not c for a set of {npts} point(s): ra {r0.tolist()} dec {d0.tolist()} "
+                                 f"come back as ra {rt.ra.tolist()} dec {rt.dec.tolist()}", {"ra": r0.tolist(), "dec": d0.tolist()})
+                break
+            mn = attempt(lambda: small.mean(), f"mean of {npts} point(s)", {"n": npts})
+            if mn is not None:
+                v = small.to_3d().sum(axis=0)
+                v = v / np.linalg.norm(v)
+                mv = mn.to_3d()[0]
+                if np.max(np.abs(mv - v)) > 1e-12:
+                    ck.add_violation(f"mean of {npts} point(s) is not the direction of their vector sum",
+                                     {"ra": r0.tolist(), "dec": d0.tolist()})
+                    break
     # from_3d(to_3d)
     back = attempt(lambda: AngularCoordinates.from_3d(vec), "from_3d", {})
     if back is not None:
